@@ -343,6 +343,10 @@ func (x *Exec) callByContract(st *State, ins ssa.Instruction, full string, fc *F
 	post = post.child()
 	bindResults(post, sig, res)
 	for _, c := range fc.Ensures {
+		if c.UsesLog {
+			// evidence about the callee's own call log: meaningless in the caller's log, never assumed
+			continue
+		}
 		st.Assume(x.evalBool(post, c.E, c))
 	}
 	if !fc.Pure {
